@@ -214,6 +214,20 @@ bool File::readULong(unsigned long& value)
 	return true;
 }
 
+// Can the given number of bytes still be read from the current position?
+// Guards against corrupt length fields: a length beyond the end of the file
+// must not be used to size a buffer.
+static bool lengthFitsInFile(FILE* stream, unsigned long len)
+{
+	struct stat st;
+	long pos = ftell(stream);
+
+	if ((pos < 0) || (fstat(fileno(stream), &st) != 0)) return false;
+	if (st.st_size < pos) return false;
+
+	return len <= (unsigned long) (st.st_size - pos);
+}
+
 // Read a ByteString value; warning: not thread safe without locking!
 bool File::readByteString(ByteString& value)
 {
@@ -228,6 +242,11 @@ bool File::readByteString(ByteString& value)
 	}
 
 	// Read the byte string from the file
+	if (!lengthFitsInFile(stream, len))
+	{
+		return false;
+	}
+
 	value.resize(len);
 
 	if (len == 0)
@@ -412,6 +431,11 @@ bool File::readString(std::string& value)
 	}
 
 	// Read the string from the file
+	if (!lengthFitsInFile(stream, len))
+	{
+		return false;
+	}
+
 	value.resize(len);
 
 	if (fread(&value[0], 1, len, stream) != len)
